@@ -1260,7 +1260,7 @@ class System:
                                 w.remove("")
                             warn += [", ".join(w)]
                         else:
-                            warn += [""]
+                            warn += [w[0]]
                 if phase_list != [""]:
                     res["Phase"] = phases
                 res["Rail"] = rail
